@@ -3,6 +3,7 @@ package checks
 import (
 	"crypto/tls"
 	"fmt"
+	"github.com/cybergarage/go-redis/redis"
 	"github.com/cybergarage/go-redis/redis/auth"
 	"runtime"
 	"sort"
@@ -151,6 +152,17 @@ func runC15(t *testing.T, tape *sim.Tape, tier string) *Outcome {
 			}
 		}
 	}
+	// the application's reload command: its executor restarts the server from inside the command
+	reloads := 0
+	var reloadErr error
+	cl.Srv.RegisterExexutor("XRELOAD", func(conn *redis.Conn, cmd string, args redis.Arguments) (*redis.Message, error) {
+		reloads++
+		cl.lifeGids.Store(sim.Goid(), true)
+		reloadErr = cl.Srv.Restart()
+		cl.lifeGids.Delete(sim.Goid())
+		cl.S.Logf("app", "Restart from inside XRELOAD returned %v", reloadErr)
+		return redis.NewOKMessage(), nil
+	})
 	running := false // a Start/Restart returned nil and no Stop has been called since
 	opsSeen := 0     // completed ops already evaluated
 	inOp := false    // a lifecycle call is in progress
@@ -382,6 +394,22 @@ func runC15(t *testing.T, tape *sim.Tape, tier string) *Outcome {
 					o.violate("c15:old-connection-not-served-tls", "a TLS connection that idled %s is not served any more (%d of 2 replies, io err %v); lifecycle %s; parked %v", idle, len(lt.Vals), lt.IOErr, hist(), taskList(cl.S.Parked()))
 				}
 			}
+			// a quarter of the runs that end with a running server: a client sends the application's "reload" command,
+			// whose executor calls Restart() from inside the command; when it has returned the server runs again
+			if running && len(o.Viol) == 0 && tape.Draw(4, "reloadcmd") == 3 {
+				rc := cl.addClient("reload", addr, [][]byte{resp.Cmd("XRELOAD")})
+				rc.Lockstep = true
+				cl.settle(6000)
+				o.stat("restart_called_from_inside_a_command", 1)
+				if reloads == 0 {
+					o.violate("harness:reload", "the XRELOAD command did not reach its executor; lifecycle %s", hist())
+				} else if reloadErr != nil {
+					o.stat("restart_from_command_returned_error", 1)
+				} else if len(o.Viol) == 0 {
+					checkRunning("after Restart was called from inside a command")
+					checkRegistry("after Restart was called from inside a command")
+				}
+			}
 			// a quarter of the runs that end with a running server: a client changes the port configuration
 			// at run time, then Stop is called - what Stop must release is what Start opened
 			if running && len(o.Viol) == 0 && tape.Draw(4, "cfgstop") == 3 {
@@ -424,7 +452,7 @@ func init() {
 	register(&Check{
 		ID: "C15", Bubble: true, Run: runC15,
 		Runs:   map[string]int{"quick": 16000, "thorough": 1000000},
-		Rule:   "a case is one run: a lifecycle task executing 1..6 drawn calls from {Start, Stop, Restart} (ill-ordered sequences included; a quarter of the TLS runs are preceded by a Start that fails on an unusable certificate and a Stop), 0..4 clients that dial, PING, idle, close or reset at drawn moments, and the accept loops and connection goroutines the server spawns, interleaved by the seeded scheduler at simulated Listen/Accept/Read and at the tagged yield points (start.opened, stop.mid, stop.closed, accept.entry, accept.exit, conn.register, conn.deregister, connmgr.stopped, connmgr.snapshot; each enabled per run by the swarm); half of the runs hold a drawn set of server tasks parked until the call in progress has returned; half of the runs that end with a running server keep a plain and a TLS connection idle for 1 s .. 25 h of simulated time and then use them again; a quarter of the runs that end with a running server add CONFIG SET port/tls-port (0, non-numeric, negative, another port) from a client followed by Stop; after each call returns the system is drained and the promised state is probed (dial+PING; bind probe, closed sockets, parked tasks, goroutine profile, registry); distinct = distinct event-log hashes",
+		Rule:   "a case is one run: a lifecycle task executing 1..6 drawn calls from {Start, Stop, Restart} (ill-ordered sequences included; a quarter of the TLS runs are preceded by a Start that fails on an unusable certificate and a Stop), 0..4 clients that dial, PING, idle, close or reset at drawn moments, and the accept loops and connection goroutines the server spawns, interleaved by the seeded scheduler at simulated Listen/Accept/Read and at the tagged yield points (start.opened, stop.mid, stop.closed, accept.entry, accept.exit, conn.register, conn.deregister, connmgr.stopped, connmgr.snapshot; each enabled per run by the swarm); half of the runs hold a drawn set of server tasks parked until the call in progress has returned; half of the runs that end with a running server keep a plain and a TLS connection idle for 1 s .. 25 h of simulated time and then use them again; a quarter of the runs that end with a running server add CONFIG SET port/tls-port (0, non-numeric, negative, another port) from a client followed by Stop; a quarter of them have a client send an application command whose executor calls Restart() from inside the command; after each call returns the system is drained and the promised state is probed (dial+PING; bind probe, closed sockets, parked tasks, goroutine profile, registry); distinct = distinct event-log hashes",
 		Real:   []string{"redis.Server Start/Stop/Restart/open/close, accept loops, connection goroutines, ConnManager"},
 		Stub:   []string{"network: simulated listeners (EADDRINUSE while bound) and connections", "handler: reference store"},
 		Assume: []string{"a goroutine that is merely not scheduled yet is not a leak: leaks are judged after draining every enabled task", "half of the runs enable the TLS port as well (real crypto/tls clients, some stalled in their handshake)"},
